@@ -49,6 +49,18 @@ class Env:
 
     # -- hooks used by models.dispatch
     def override(self, engine, st, callee, args, dest_ty):
+        if callee.endswith('route::Activity::retrieve_job'):
+            # jobs in the templates are single jobs (no multi-job root link): Some(Job::Single(arc))
+            act = deref_all(args[0])
+            job = self.field(act, 'route::Activity', 'job')
+            if job.variant() == 1:
+                return mk_option(True, EnumV('jobs::Job', 0, {0: [job.payload[1][0]]}), ty=dest_ty)
+            return mk_option(False, ty=dest_ty)
+        if callee.endswith('load::Load>::ratio'):
+            # value/capacity as f64 division: outside the exact-int back end; the result (max-load statistic) is havoc'd and
+            # not part of any claim
+            self._havoc = getattr(self, '_havoc', 0) + 1
+            return FV(False, z3.Int(f'havoc_ratio_{self._havoc}'))
         return NotImplemented
 
     def subst_type(self, ty):
@@ -100,6 +112,12 @@ class Env:
             fn = self._trait_default('ActivityCost', method)
             return engine.exec_fn(st, fn, args)
         raise Inconclusive(f'dyn call {trait}::{method} is not bound by this obligation')
+
+    def dyn_closure(self, engine, st, tag, args):
+        fn = getattr(self, 'closures', {}).get(tag)
+        if fn is None:
+            raise Inconclusive(f'dyn closure {tag} is not bound by this obligation')
+        return fn(engine, st, args)
 
     def _trait_default(self, trait, method):
         cands = [f for name, f in self.prog.functions.items() if name.endswith(f'{trait}::{method}')]
